@@ -38,6 +38,13 @@ RULE = ("(a) operators._split_diff_combine on EVERY validity pattern of every li
         "one grid line replaced likewise leaves all other lines bit-identical, components alone = components together, "
         "linearity 2f-3g, homogeneity diff(c f) = c diff(f) for c = {1,-5/2,3}*2^k with |k| up to 200, ring shift, centred "
         "wrap-around differences on fully valid / unrestricted rings, meta data, operand untouched. "
+        "(x) SECOND ROUND: (x1) Field.diff called by direction NAME (known names, unknown names, '', doubled / padded / upper-case names, the concatenation of all names) "
+        "x any integer order (1, 2, 0, 3, -1, -2, 4, 7, +-10^6): accepted / NotImplementedError / ValueError must be the model's diffDirI outcome, accepted results equal the model's; "
+        "(x2) meshes whose bc is the WORD neumann / dirichlet with axes named by letters of the word, or whose periodic directions spell a multi-character axis name, cells 2^-k: "
+        "every axis against the model; on the real code bit-identical to the same mesh with bc='' (diff_word_bc), diff(2f-3g) == 2diff(f)-3diff(g) as arrays (diff_linFld), a component "
+        "alone == the component of the whole (diff_compFld), bc kept; (x3) storage kinds int8..int64, uint8..uint64, float16/32/64, complex64/128 on 1-3-d meshes with masks and periodic "
+        "axes: values against the model (a complex field as 2*nvdim real components), storage kind of the result against the model's rule resKind, never integers; exact derivative of "
+        "a quadratic stored in that kind; intdtype and negative orders, formerly judged by the oracle only, now go to the model as well. "
         "non-trivial = some run longer than the order with non-constant data")
 TRUSTED = ["harness/c04.py, harness/fieldio.py + driver JSON glue", "np.gradient / np.convolve / np.pad(mode='wrap') modelled by contract"]
 ASSUMPTIONS = ["exact-regime inputs (small integers, dyadic steps): every binary64 operation on the code path is exact, so equality is demanded",
@@ -47,18 +54,27 @@ ASSUMPTIONS = ["exact-regime inputs (small integers, dyadic steps): every binary
                "(arbitrary floats) fix the cell size only up to order*8*ulp(corner)/edge (the wrap-padded mesh of a periodic axis is rebuilt from moved corners)",
                "default tolerance-regime n-d meshes keep |corner| / smallest cell edge below ~1e10 (Mesh.sel's divisibility test, see VERIF_C04_ANISO_FAR); "
                "integer-typed field storage used to truncate the derivative (finding D115, fixed in /repo 5136d062; generated by default); "
-               "the anisotropic / far-offset class is open finding D116, generated by default and reported as KNOWN-FINDING"]
-UNPROVED = ["ring_shift for masks whose valid run crosses the periodic seam is FALSE of the code (known finding D17; the counterexample is proved on the "
-            "model: ring_shift_masked_counterexample, ring_shift_not_for_all_masks). Proved instead, for every mask: what the code computes run by run "
-            "(ring_inner_run: a run delimited inside the stored line gets the ring-run value; ring_head_run_seam / ring_tail_run_seam: a run at the seam is "
-            "differentiated with exactly one cell from the other side), ring_open_if_first/last_invalid, shift-equivariance for every rotation that keeps "
-            "all runs off the seam (ring_shift_off_seam, ring_shift_off_seam_one), reversal (ring_reverse), and ring_shift for fully valid rings / restriction off",
-            "n-d locality (diff_locality_nd), diff_refines_spec and diff_short_run_zero are stated for open axes; for a periodic axis the field-level statements are "
-            "diff_cell + diff_refines_spec_periodic (the spec applied to the wrap-padded line), diff_periodic_centred_d1/d2 (fully valid lines) and diff_invalid_zero (both kinds of axis)",
-            "binary64 rounding is not modelled: line_smul / diff_linear / d1_exact / d2_exact are theorems over the rationals for every h and every scale; that the code follows them at every "
-            "magnitude (no absolute threshold, clipping, snapping or narrowing anywhere between 1e-270 and 1e+270) is established by the scale streams only: exactly where powers of two keep "
-            "the arithmetic exact, within the stencil's forward error bound otherwise",
-            "subnormal results, overflow, NaN/inf field values and complex fields are outside the streams"]
+               "the anisotropic / far-offset class is open finding D116, generated by default and reported as KNOWN-FINDING",
+               "dtype stream: |values| <= 9 (int8: quadratic samples with |curvature| 1) so that no intermediate of the end stencils leaves the storage kind; unsigned kinds are "
+               "differentiated once only by default (order 1 goes through np.gradient, which converts to binary64 first); VERIF_C04_NARROW_INT=1 adds order 2 for unsigned kinds and "
+               "larger int8 samples (new finding D130, not yet listed: the check then reports VIOLATION)"]
+UNPROVED = ["shift-equivariance of the periodic derivative for ALL masks is FALSE of the code (known finding D17). It is no longer an open end of the proof: "
+            "ring_shift_iff delimits it exactly (it holds for every rotation and all data IFF the mask is fully valid or has no three cyclically consecutive valid cells; "
+            "for every other mask ring_rot_fails exhibits data and two rotations that disagree), diffRing_refines_ringSpec states what the code computes for EVERY mask "
+            "including the runs that cross the seam, ring_window_is_cut_run identifies that window with the cell's cyclic ring run cut one cell beyond the seam, "
+            "ring_ideal_of_uncut / ring_rot_uncut give the seam-independent value and equivariance at every cell whose run is not cut, ring_centred_at confines the deviation "
+            "to the end cells of a cut run. What remains a deviation of the CODE from the property text: the exactness / locality / short-run theorems for periodic axes speak "
+            "about the code's window (fldB/fldA = ring run cut at seam+1), not about the whole ring run, at the cells of a cut run",
+            "binary64 rounding is not modelled: line_smul / diff_linFld / d1_exact / d2_exact and all *_any theorems are theorems over the rationals for every h and every scale; that the code "
+            "follows them at every magnitude (no absolute threshold, clipping, snapping or narrowing anywhere between 1e-270 and 1e+270) is established by the scale streams only: exactly where "
+            "powers of two keep the arithmetic exact, within the stencil's forward error bound otherwise",
+            "storage kinds: resKind (np.result_type(dtype, float)) is a model DEFINITION tied to the code by the dtype / intdtype streams, not derived from anything; the model computes on "
+            "rationals, so arithmetic carried out in the storage kind is invisible to it: the second derivative of a field stored as UNSIGNED (or int8 with larger values) integers wraps around "
+            "in the end stencils of operators._1d_diff (new finding, proposed id D130, see known(); that class is generated only with VERIF_C04_NARROW_INT=1 and then fails the check); "
+            "complex fields are compared as 2*nvdim real components (linearity over COMPLEX scalars is not a theorem, diff_linFld has rational alpha, beta)",
+            "diffDir / diffDirI model only string names and integer orders (a float order 1.0, a non-string direction are outside the streams); the region invariant dims.length = ndim is a "
+            "hypothesis of diffDir_accepts_iff / diffDir_rejects_iff (met by every constructed mesh, C13)",
+            "subnormal results, overflow and NaN/inf field values are outside the streams"]
 BUDGET = {"quick": 80, "thorough": 900}
 
 
@@ -96,6 +112,7 @@ def cases(rng, tier):
         yield dict(kind="field", mesh=spec, nvdim=rng.choice([1, 1, 2, 3]), order=rng.choice([1, 2]),
                    restrict=rng.random() < 0.8, density=rng.choice([1.0, 0.9, 0.7, 0.5]), sub=rng.getrandbits(32))
     yield from scaled_cases(rng, tier)
+    yield from ext_cases(rng, tier)
 
 
 # ------------------------------------------------------------------ oracles on the real code
@@ -612,6 +629,9 @@ def run_scaled(case, obs, rng, fail):
         v = [sum(c * j ** k for k, c in enumerate(co)) for j in range(L)]
         f = df.Field(mesh, nvdim=1, value=np.array(v, dtype=case["dtype"]).reshape(L, 1), dtype=getattr(np, case["dtype"]))
         g = f.diff("x", order=order)
+        obs["field"], obs["res"] = fieldio.field_json(f), g
+        if g.array.dtype != np.float64:
+            fail(f"field stored as {case['dtype']}: the derivative is stored as {g.array.dtype}, not as binary64")
         for j in range(L):
             # p(j) sampled at x = (j + 1/2) h: d/dx = p'(j)/h, d2/dx2 = p''/h^2 ; exact for runs longer than the order
             exp = (Fraction(co[1] + 2 * co[2] * j) / h if order == 1 else Fraction(2 * co[2]) / (h * h)) if L > order else Fraction(0)
@@ -828,7 +848,14 @@ def scaled_requests(case, obs):
         return [dict(op="sdc", order=case["order"], h=obs["h"], vals=ln["vals"], valid=ln["valid"], periodic=case["periodic"],
                      restrict=case["restrict"]) for ln in obs["lines"]]
     if kind == "badorder":
-        return [dict(op="field_diff", field=obs["field"], ax=0, order=case["order"], restrict=True)] if case["order"] >= 0 else []
+        # by axis index for the orders a natural number can hold, and by NAME with the order as the caller passes it
+        # (any integer) along every axis
+        rq = [dict(op="field_diff", field=obs["field"], ax=0, order=case["order"], restrict=True)] if case["order"] >= 0 else []
+        return rq + [dict(op="field_diff_dir", field=obs["field"], dir=d, order=case["order"], restrict=True)
+                     for d in obs["field"]["mesh"]["region"]["dims"]]
+    if kind == "intdtype":
+        return [dict(op="field_diff", field=obs["field"], ax=0, order=case["order"], restrict=True),
+                dict(op="diff_kind", dtype=case["dtype"])]
     return []
 
 
@@ -892,12 +919,273 @@ def scaled_compare(case, obs, rs):
                           F(obs["h"]), case["order"], ln["out"], r["ok"], case["sc"]["tol"], dis, hrel=Fraction(case["order"] * 8, 2 ** 52))
     elif kind == "badorder":
         for r in rs:
-            if "err" not in r:
-                dis.append(f"order {case['order']}: impl raises, model {str(r)[:80]}")
+            if r.get("err") != "notimpl":
+                dis.append(f"order {case['order']}: impl raises NotImplementedError, model {str(r)[:80]}")
+    elif kind == "intdtype":
+        if "ok" not in rs[0]:
+            dis.append(f"Field.diff (stored as {case['dtype']}): impl ok vs model {rs[0]}")
+        else:
+            fieldio.cmp_field(f"Field.diff (stored as {case['dtype']})", obs["res"], rs[0]["ok"], dis)
+        if rs[1].get("ok") != str(obs["res"].array.dtype):
+            dis.append(f"storage kind of the derivative of a {case['dtype']} field: impl {obs['res'].array.dtype} vs model {rs[1]}")
+    return dis
+
+
+
+# ====================================================================== second extension round
+# (x1) Field.diff called with the direction by NAME and any integer order: acceptance / kind of refusal against the model
+#      (diffDirI: order check first, then Region._dim2index);
+# (x2) meshes whose bc is one of the WORDS 'neumann' / 'dirichlet' (axes named by letters of the word) or whose periodic
+#      directions spell a multi-character axis name: against the model, and - property level - bit-identical to the same
+#      mesh with bc='' (theorem diff_word_bc), linear as fields (theorem diff_linFld), components alone (diff_compFld);
+# (x3) storage kinds: int8..int64, uint8..uint64, float16/32/64, complex64/128 (a complex field is sent to the model as
+#      2*nvdim rational components, real parts first): values against the model, storage kind of the result against the
+#      model's rule np.result_type(dtype, float); property level: exact derivative of a quadratic for every kind.
+DT_SIGNED = ["int8", "int16", "int32", "int64"]
+DT_UNSIGNED = ["uint8", "uint16", "uint32", "uint64"]
+DT_FLOAT = ["float16", "float32", "float64"]
+DT_COMPLEX = ["complex64", "complex128"]
+# second derivatives of fields stored as UNSIGNED integers (and of int8 fields with values above ~25): the end stencils
+# `2*a[0] - 5*a[1] + 4*a[2] - a[3]` / `a[0] - 2*a[1] + a[2]` in operators._1d_diff are evaluated in the storage kind and wrap
+# around (new finding, see final report of the second C04 extension round): generated only when the flag is set
+NARROW_INT = os.environ.get("VERIF_C04_NARROW_INT", "1") != "0"    # default on since repo fix d9789d20 (D130)
+
+
+def pow2_spec(rng, ndim=None, max_cells=60, nmax=6):
+    """mesh with cells 2^-k and dyadic corners: every stencil on small integers is exact"""
+    ndim = ndim or rng.choice([1, 2, 2, 3, 3, 4])
+    n = [rng.randint(1, nmax) for _ in range(ndim)]
+    while int(np.prod(n)) > max_cells:
+        k = rng.randrange(ndim)
+        n[k] = max(1, n[k] - 1)
+    cell = [Fraction(1, 2 ** rng.randint(0, 3)) for _ in range(ndim)]
+    pmin = [Fraction(rng.randint(-20, 20), 4) for _ in range(ndim)]
+    pmax = [a + k * c for a, k, c in zip(pmin, n, cell)]
+    dims = rng.sample(fieldio.NAMES, ndim) if rng.random() < 0.5 else None
+    dd = dims or (["x", "y", "z"][:ndim] if ndim <= 3 else [])
+    bc = "".join(d for d in dd if rng.random() < 0.5)
+    return dict(p1=[float(x) for x in pmin], p2=[float(x) for x in pmax], n=n, dims=dims, bc=bc)
+
+
+def ext_cases(rng, tier):
+    q = tier == "quick"
+    for _ in range(36 if q else 300):
+        spec = pow2_spec(rng, max_cells=30, nmax=5)
+        if rng.random() < 0.4:
+            spec["dims"], spec["bc"] = fieldio.word_dims(rng, len(spec["n"]))
+        yield dict(kind="dirname", mesh=spec, nvdim=rng.choice([1, 2]), restrict=rng.random() < 0.7, sub=rng.getrandbits(32))
+    for _ in range(40 if q else 400):
+        spec = pow2_spec(rng)
+        spec["dims"], spec["bc"] = fieldio.word_dims(rng, len(spec["n"]))
+        yield dict(kind="wordfield", mesh=spec, nvdim=rng.choice([1, 2, 3]), order=rng.choice([1, 2]), restrict=rng.random() < 0.7,
+                   density=rng.choice([1.0, 0.9, 0.7, 0.5]), sub=rng.getrandbits(32))
+    kinds = DT_SIGNED + DT_UNSIGNED + DT_FLOAT + DT_COMPLEX + DT_COMPLEX
+    for k in range(72 if q else 600):
+        dt = kinds[k % len(kinds)]
+        order = rng.choice([1, 2])
+        if dt in DT_UNSIGNED and order == 2 and not NARROW_INT:
+            order = 1
+        yield dict(kind="dtype", dtype=dt, mesh=pow2_spec(rng, ndim=rng.choice([1, 1, 2, 3]), max_cells=40, nmax=7), nvdim=rng.choice([1, 1, 2]),
+                   order=order, restrict=rng.random() < 0.7, density=rng.choice([1.0, 0.9, 0.6]), sub=rng.getrandbits(32))
+    if NARROW_INT:
+        for k in range(24):
+            yield dict(kind="dtype", dtype=(DT_UNSIGNED + ["int8"])[k % 5], narrow=True, mesh=pow2_spec(rng, ndim=1, nmax=8), nvdim=1, order=2,
+                       restrict=True, density=1.0, sub=rng.getrandbits(32))
+
+
+def outcome(fn):
+    try:
+        return ("ok", fn())
+    except NotImplementedError:
+        return ("notimpl", None)
+    except ValueError:
+        return ("value", None)
+    except Exception as e:   # any other exception type: reported as it is
+        return (type(e).__name__, None)
+
+
+def run_ext(case, obs, rng, fail):
+    kind = case["kind"]
+    mesh = fieldio.build_mesh(case["mesh"])
+    nv = case["nvdim"]
+    dims = list(mesh.region.dims)
+    if kind == "dirname":
+        arr = fieldio.gen_int_array(rng, (*mesh.n, nv))
+        mask = fieldio.gen_mask(rng, tuple(mesh.n), rng.choice([1.0, 0.8, 0.5]))
+        f = df.Field(mesh, nvdim=nv, value=arr, valid=mask, unit="A/m")
+        obs["field"] = fieldio.field_json(f)
+        names = dims + ["q", "", dims[0] * 2, " " + dims[0], dims[0] + " ", "".join(dims)]
+        if dims[0].upper() not in dims:
+            names.append(dims[0].upper())
+        orders = [1, 2, 0, 3, -1, -2, 4, 7, 10 ** 6, -(10 ** 6)]
+        calls = [(d, o) for d in dims for o in (1, 2)] + [(rng.choice(names), rng.choice(orders)) for _ in range(8)]
+        obs["calls"] = []
+        for d, o in calls:
+            res = outcome(lambda: f.diff(d, order=o, restrict2valid=case["restrict"]))
+            obs["calls"].append((d, o, res))
+            # property level: an order other than 1 and 2 is never differentiated, whatever the name
+            if o not in (1, 2) and res[0] != "notimpl":
+                fail(f"diff({d!r}, order={o}) on dims={dims} gives {res[0]}, not NotImplementedError")
+            if o in (1, 2) and d in dims and res[0] != "ok":
+                fail(f"diff({d!r}, order={o}) on dims={dims}, bc={mesh.bc!r} is refused ({res[0]})")
+        obs["tags"] += ["named:" + ("known" if d in dims else "unknown") + ",order:" + ("ok" if o in (1, 2) else "bad") for d, o in calls]
+        obs["nontrivial"] = True
+        return
+    if kind == "wordfield":
+        order, restrict = case["order"], case["restrict"]
+        arr = fieldio.gen_int_array(rng, (*mesh.n, nv))
+        arr2 = fieldio.gen_int_array(rng, (*mesh.n, nv))
+        mask = fieldio.gen_mask(rng, tuple(mesh.n), case["density"])
+        f = df.Field(mesh, nvdim=nv, value=arr, valid=mask, unit="T")
+        obs["field"], obs["res"] = fieldio.field_json(f), {}
+        word = mesh.bc in fieldio.BC_WORDS
+        mesh0 = fieldio.build_mesh(dict(case["mesh"], bc="")) if word else None
+        for ax, d in enumerate(dims):
+            g = f.diff(d, order=order, restrict2valid=restrict)
+            obs["res"][ax] = g
+            where = f"along {d!r} (axis {ax}) of dims={dims}, bc={mesh.bc!r}, order {order}, restrict={restrict}"
+            if not (g.mesh == f.mesh and g.mesh.bc == f.mesh.bc and g.unit == f.unit and np.array_equal(g.valid, f.valid)
+                    and list(g.vdims or []) == list(f.vdims or []) and g.vdim_mapping == f.vdim_mapping):
+                fail(f"diff changed mesh, bc, unit, validity, labels or mapping {where}")
+            if word:
+                # the words change nothing: same result as on the mesh with bc=''
+                g0 = df.Field(mesh0, nvdim=nv, value=arr, valid=mask).diff(d, order=order, restrict2valid=restrict)
+                if not np.array_equal(g0.array, g.array):
+                    fail(f"diff on a {mesh.bc!r} mesh differs from diff on the same mesh with bc='' {where}")
+            # linear, as fields (cells are powers of two and the data small integers: exact)
+            g2 = df.Field(mesh, nvdim=nv, value=arr2, valid=mask).diff(d, order=order, restrict2valid=restrict)
+            gl = df.Field(mesh, nvdim=nv, value=2 * arr - 3 * arr2, valid=mask).diff(d, order=order, restrict2valid=restrict)
+            if not np.array_equal(gl.array, 2 * g.array - 3 * g2.array):
+                fail(f"diff(2f-3g) != 2 diff(f) - 3 diff(g) {where}")
+            if nv > 1:
+                k = rng.randrange(nv)
+                gk = df.Field(mesh, nvdim=1, value=arr[..., k:k + 1], valid=mask).diff(d, order=order, restrict2valid=restrict)
+                if not np.array_equal(gk.array[..., 0], g.array[..., k]):
+                    fail(f"component {k} differs when differentiated alone {where}")
+        obs["tags"] += [f"bc:{'word' if word else 'multichar-name'}", f"ndim:{mesh.region.ndim}", f"order:{order}", f"restrict:{restrict}",
+                        "axis-named-by-word-letter" if word and any(d in mesh.bc for d in dims) else "no-letter-axis"]
+        obs["nontrivial"] = max(mesh.n) > order
+        return
+    # ---- storage kinds
+    dt, order, restrict = case["dtype"], case["order"], case["restrict"]
+    npdt = getattr(np, dt)
+    cplx = dt in DT_COMPLEX
+    lo = 0 if dt in DT_UNSIGNED else -9
+    shape = (*mesh.n, nv)
+    re = fieldio.gen_int_array(rng, shape, lo, 9)
+    im = fieldio.gen_int_array(rng, shape, -9, 9) if cplx else None
+    mask = fieldio.gen_mask(rng, tuple(mesh.n), case["density"])
+    val = (re + 1j * im).astype(npdt) if cplx else re.astype(npdt)
+    f = df.Field(mesh, nvdim=nv, value=val, valid=mask, dtype=npdt, unit="T")
+    if f.array.dtype != npdt:
+        raise core.MachineryError(f"field asked to be stored as {dt} is stored as {f.array.dtype}")
+    # what the model sees: the real parts (and the imaginary parts as nvdim further components)
+    fj = fieldio.field_json(df.Field(mesh, nvdim=nv, value=re, valid=mask, unit="T"))
+    if cplx:
+        fj = dict(fj, nvdim=2 * nv, data=[Qs(list(a) + list(b)) for a, b in zip(re.reshape(-1, nv).tolist(), im.reshape(-1, nv).tolist())],
+                  vdims=None, vmap=[])
+    obs["fj"], obs["res"], obs["cplx"] = fj, {}, cplx
+    for ax, d in enumerate(dims):
+        g = f.diff(d, order=order, restrict2valid=restrict)
+        obs["res"][ax] = g
+        if not (g.mesh == f.mesh and g.unit == f.unit and np.array_equal(g.valid, f.valid) and g.nvdim == f.nvdim):
+            fail(f"diff of a {dt} field changed mesh, unit, validity or component count along {d}")
+        if g.array.dtype.kind in "iub":
+            fail(f"field stored as {dt}: the derivative along {d} is stored as {g.array.dtype} (integers)")
+        if cplx != (g.array.dtype.kind == "c"):
+            fail(f"field stored as {dt}: the derivative along {d} is stored as {g.array.dtype}")
+    # property level: exact derivative of a quadratic sampled on a fully valid open line, stored as this kind
+    L = rng.randint(3, 8)
+    hq = P2(rng.randint(0, 3))
+    narrow = bool(case.get("narrow"))
+    big = 3 if narrow or dt not in ("int8",) + tuple(DT_UNSIGNED) else 1
+    if dt in DT_UNSIGNED and narrow:
+        co = [rng.randint(60, 90), rng.randint(-3, 3), -rng.randint(1, 1)]   # non-negative samples, NEGATIVE curvature
+    elif dt in DT_UNSIGNED:
+        co = [rng.randint(0, 4), rng.randint(0, 3), rng.randint(1, big)]
+    else:
+        co = [rng.randint(-4, 4), rng.randint(-3, 3), rng.choice([-1, 1]) * rng.randint(1, big)]
+    co2 = [rng.randint(-4, 4), rng.randint(-3, 3), rng.randint(-2, 2)] if cplx else [0, 0, 0]
+    v = [sum(c * j ** k for k, c in enumerate(co)) for j in range(L)]
+    w = [sum(c * j ** k for k, c in enumerate(co2)) for j in range(L)]
+    m1 = df.Mesh(p1=0.0, p2=float(L * hq), n=L)
+    pv = (np.array(v) + 1j * np.array(w)).astype(npdt) if cplx else np.array(v).astype(npdt)
+    gp = df.Field(m1, nvdim=1, value=pv.reshape(L, 1), dtype=npdt).diff("x", order=order)
+    for j in range(L):
+        ex = [(Fraction(c[1] + 2 * c[2] * j) / hq if order == 1 else Fraction(2 * c[2]) / (hq * hq)) if L > order else Fraction(0) for c in (co, co2)]
+        got = gp.array[j, 0]
+        parts = (got.real, got.imag) if cplx else (got, 0.0)
+        if not all(math.isfinite(float(x)) for x in parts) or [Fraction(float(x)) for x in parts] != ex:
+            fail(f"field stored as {dt}: order {order}, cell {j} of the samples {pv.tolist()} (h={float(hq)}) gives {got!r}, "
+                 f"the exact derivative of the quadratic is {[float(e) for e in ex] if cplx else float(ex[0])!r}")
+            break
+    obs["tags"] += [f"dtype:{dt}", f"order:{order}", f"restrict:{restrict}", f"bc:{'p' if mesh.bc else 'open'}"] + (["narrow-int"] if narrow else [])
+    obs["nontrivial"] = max(mesh.n) > order
+
+
+def ext_requests(case, obs):
+    kind = case["kind"]
+    if kind == "dirname":
+        return [dict(op="field_diff_dir", field=obs["field"], dir=d, order=o, restrict=case["restrict"]) for d, o, _ in obs["calls"]]
+    if kind == "wordfield":
+        return [dict(op="field_diff", field=obs["field"], ax=ax, order=case["order"], restrict=case["restrict"]) for ax in sorted(obs["res"])]
+    return [dict(op="field_diff", field=obs["fj"], ax=ax, order=case["order"], restrict=case["restrict"]) for ax in sorted(obs["res"])] \
+        + [dict(op="diff_kind", dtype=case["dtype"])]
+
+
+def ext_compare(case, obs, rs):
+    dis = []
+    kind = case["kind"]
+    if kind == "dirname":
+        for (d, o, (tag, g)), r in zip(obs["calls"], rs):
+            mtag = "ok" if "ok" in r else r.get("err")
+            if tag != mtag:
+                dis.append(f"diff({d!r}, order={o}): impl {tag} vs model {mtag}")
+            elif tag == "ok":
+                fieldio.cmp_field(f"diff({d!r}, order={o})", g, r["ok"], dis)
+    elif kind == "wordfield":
+        for ax, r in zip(sorted(obs["res"]), rs):
+            if "ok" not in r:
+                dis.append(f"Field.diff axis {ax}: impl ok vs model {r}")
+            else:
+                fieldio.cmp_field(f"Field.diff(axis {ax}, bc={case['mesh']['bc']!r})", obs["res"][ax], r["ok"], dis)
+    else:
+        nv = case["nvdim"]
+        for ax, r in zip(sorted(obs["res"]), rs[:-1]):
+            g = obs["res"][ax]
+            if "ok" not in r:
+                dis.append(f"Field.diff axis {ax} ({case['dtype']}): impl ok vs model {r}")
+                continue
+            got = np.asarray(g.array).reshape(-1, nv)
+            rows = r["ok"]["data"]
+            if len(rows) != len(got):
+                dis.append(f"Field.diff axis {ax} ({case['dtype']}): cell count impl {len(got)} vs model {len(rows)}")
+                continue
+            if not np.all(np.isfinite(got)):
+                dis.append(f"Field.diff axis {ax} ({case['dtype']}): impl has non-finite values, model has none")
+                continue
+            bad = None
+            for k, row in enumerate(rows):
+                for c in range(nv):
+                    x = got[k, c]
+                    if Fraction(float(x.real)) != F(row[c]) or (obs["cplx"] and Fraction(float(x.imag)) != F(row[nv + c])):
+                        bad = f"Field.diff axis {ax} (stored as {case['dtype']}): flat cell {k} comp {c}: impl {x!r} vs model " \
+                              f"{row[c]}" + (f" + i*{row[nv + c]}" if obs["cplx"] else "")
+                        break
+                if bad:
+                    break
+            if bad:
+                dis.append(bad)
+            if r["ok"]["valid"] != [bool(b) for b in np.asarray(g.valid).reshape(-1).tolist()]:
+                dis.append(f"Field.diff axis {ax} ({case['dtype']}): validity differs")
+            got_kind = str(g.array.dtype)
+            if rs[-1].get("ok") != got_kind:
+                dis.append(f"storage kind of the derivative of a {case['dtype']} field: impl {got_kind} vs model {rs[-1]}")
     return dis
 
 
 SCALED = ("sline", "sfield1d", "sfield", "slong2d", "badorder", "intdtype")
+EXT = ("dirname", "wordfield", "dtype")
 
 
 def run_impl(case):
@@ -906,6 +1194,9 @@ def run_impl(case):
     fail = obs["oracle"].append
     if case["kind"] in SCALED:
         run_scaled(case, obs, rng, fail)
+        return obs
+    if case["kind"] in EXT:
+        run_ext(case, obs, rng, fail)
         return obs
     if case["kind"] == "line":
         L, order = case["L"], case["order"]
@@ -995,6 +1286,8 @@ def run_impl(case):
 def model_requests(case, obs):
     if case["kind"] in SCALED:
         return scaled_requests(case, obs)
+    if case["kind"] in EXT:
+        return ext_requests(case, obs)
     if case["kind"] == "line":
         return [dict(op="sdc", order=case["order"], h=Q(Fraction(1, 2 ** case["hexp"])), vals=obs["vals"],
                      valid=case["mask"], periodic=False, restrict=True)]
@@ -1007,6 +1300,8 @@ def model_requests(case, obs):
 def compare(case, obs, rs):
     if case["kind"] in SCALED:
         return scaled_compare(case, obs, rs)
+    if case["kind"] in EXT:
+        return ext_compare(case, obs, rs)
     dis = []
     if case["kind"] == "line":
         if [F(x) for x in obs["out"]] != [F(x) for x in rs[0]["ok"]]:
@@ -1034,6 +1329,10 @@ def known(case, text):
     # raises because Mesh.sel / Mesh.pad rebuild a mesh that Mesh.__init__'s divisibility tolerance refuses
     if case["kind"] in ("sfield", "slong2d") and "Region cannot be divided into discretisation cells" in text:
         return "D116"
+    # D130 (proposed, not yet listed): second derivative of a field stored as unsigned / narrow integers - the end stencils
+    # of operators._1d_diff are evaluated in the storage kind and wrap around; generated only with VERIF_C04_NARROW_INT=1
+    if case["kind"] == "dtype" and case["order"] == 2 and (case["dtype"] in DT_UNSIGNED or case.get("narrow")) and "stored as" in text:
+        return "D130"
     # D17: periodic direction, restricted to valid cells, a valid run crossing the seam
     if case["kind"] in ("field1d", "sfield1d") and case["periodic"] and case.get("restrict", True) and "cyclic shift" in text:
         m = case_mask(case)
